@@ -992,13 +992,13 @@ package channel
 //@     invariant forall a int :: 0 <= a && a < $i ==> rec("A", a + 1) == rec("A", a) + len(b[0])
 //@     invariant forall a int :: 0 <= a && a < $i ==> balRow(w, rec("A", a), b[a], len(b[0]))
 //@   loop (Balances).Encode.2
-//@     invariant 0 <= i && i < len(b) && wcount(w) == rec("A", i) + $i
+//@     invariant 0 <= $i1 && $i1 < len(b) && wcount(w) == rec("A", $i1) + $i
 //@     invariant rec("A", 0) == old(wcount(w)) + 2 && balHeader(w, old(wcount(w)), b)
-//@     invariant forall a int :: 0 <= a && a <= i ==> rec("A", a) >= old(wcount(w)) + 2
-//@     invariant forall a int :: 0 <= a && a < i ==> rec("A", a) + len(b[0]) <= rec("A", i)
-//@     invariant forall a int :: 0 <= a && a < i ==> rec("A", a + 1) == rec("A", a) + len(b[0])
-//@     invariant forall a int :: 0 <= a && a < i ==> balRow(w, rec("A", a), b[a], len(b[0]))
-//@     invariant balRow(w, rec("A", i), b[i], $i)
+//@     invariant forall a int :: 0 <= a && a <= $i1 ==> rec("A", a) >= old(wcount(w)) + 2
+//@     invariant forall a int :: 0 <= a && a < $i1 ==> rec("A", a) + len(b[0]) <= rec("A", $i1)
+//@     invariant forall a int :: 0 <= a && a < $i1 ==> rec("A", a + 1) == rec("A", a) + len(b[0])
+//@     invariant forall a int :: 0 <= a && a < $i1 ==> balRow(w, rec("A", a), b[a], len(b[0]))
+//@     invariant balRow(w, rec("A", $i1), b[$i1], $i)
 //@   loop (*Balances).Decode.1
 //@     modifies fresh, ghost("rcount"), ghost("desync"), ghost("rfail"), ghost("setbyteslen")
 //@     invariant !desync(r) && rcount(r) == old(rcount(r0)) + rec("A", $i) - old(wcount(w0))
@@ -1006,11 +1006,11 @@ package channel
 //@     invariant forall a, c int :: 0 <= a && a < $i && 0 <= c && c < len(x[0]) ==> len((*b)[a]) == len(x[0]) && (*b)[a][c] != nil && val((*b)[a][c]) == val(x[a][c])
 //@   loop (*Balances).Decode.2
 //@     modifies fresh, ghost("rcount"), ghost("desync"), ghost("rfail"), ghost("setbyteslen")
-//@     invariant 0 <= i && i < len(*b) && !desync(r) && rcount(r) == old(rcount(r0)) + rec("A", i) - old(wcount(w0)) + $i
-//@     invariant len(*b) == len(x) && numParts == len(x[0]) && len((*b)[i]) == len(x[0])
-//@     invariant balRow(w0, rec("A", i), x[i], len(x[0])) && rec("A", i + 1) == rec("A", i) + len(x[0])
-//@     invariant forall a, c int :: 0 <= a && a < i && 0 <= c && c < len(x[0]) ==> len((*b)[a]) == len(x[0]) && (*b)[a][c] != nil && val((*b)[a][c]) == val(x[a][c])
-//@     invariant forall c int :: 0 <= c && c < $i ==> (*b)[i][c] != nil && val((*b)[i][c]) == val(x[i][c])
+//@     invariant 0 <= $i1 && $i1 < len(*b) && !desync(r) && rcount(r) == old(rcount(r0)) + rec("A", $i1) - old(wcount(w0)) + $i
+//@     invariant len(*b) == len(x) && numParts == len(x[0]) && len((*b)[$i1]) == len(x[0])
+//@     invariant balRow(w0, rec("A", $i1), x[$i1], len(x[0])) && rec("A", $i1 + 1) == rec("A", $i1) + len(x[0])
+//@     invariant forall a, c int :: 0 <= a && a < $i1 && 0 <= c && c < len(x[0]) ==> len((*b)[a]) == len(x[0]) && (*b)[a][c] != nil && val((*b)[a][c]) == val(x[a][c])
+//@     invariant forall c int :: 0 <= c && c < $i ==> (*b)[$i1][c] != nil && val((*b)[$i1][c]) == val(x[$i1][c])
 
 // Sub-allocations: ID, number of balances, the balances, number of index-map entries, the entries.
 //@ pred subWF(x SubAlloc) = nonNilBals(x.Bals)
